@@ -2,6 +2,7 @@
 // libFuzzer targets.  Everything the library reports through std::exception is fine; anything else
 // (other exception types, sanitizer reports, signals) is a violation detected by the caller / the sanitizers.
 #pragma once
+#include <new>
 #include <sstream>
 #include <string>
 #include "cdns.h"
@@ -15,10 +16,14 @@ struct Result {
   std::string exc_class;
   bool non_std = false;     // an exception not derived from std::exception escaped
   size_t rendered = 0;
+  uint64_t digest = 1469598103934665603ull;   // FNV-1a over everything observable (rendered text, values, exception classes)
+  void mix(const std::string& t) { for (unsigned char ch : t) { digest ^= ch; digest *= 1099511628211ull; } digest ^= 0xFF; digest *= 1099511628211ull; }
+  void mix(uint64_t v) { for (int i = 0; i < 8; i++) { digest ^= (v >> (8 * i)) & 0xFF; digest *= 1099511628211ull; } }
 };
 
 inline void classify(Result& r, const std::exception& e) {
   r.exc = e.what();
+  r.mix(std::string("exception:") + e.what());
   if (dynamic_cast<const CDNS::CdnsDecoderEnd*>(&e)) r.exc_class = "CdnsDecoderEnd";
   else if (dynamic_cast<const CDNS::CdnsDecoderException*>(&e)) r.exc_class = "CdnsDecoderException";
   else if (dynamic_cast<const std::bad_alloc*>(&e)) r.exc_class = "bad_alloc";
@@ -28,46 +33,54 @@ inline void classify(Result& r, const std::exception& e) {
 }
 
 // CdnsReader: header, every block, every generic record, every string() renderer
-inline Result reader(const std::string& bytes) {
+// `mem` (optional): storage of at least sizeof(CdnsReader) bytes in which the reader object is constructed; its
+// previous content is what the reader's never-initialised decoder window starts with (poison-differential oracle)
+inline Result reader(const std::string& bytes, void* mem = nullptr) {
   Result r;
   std::istringstream is(bytes);
+  struct Holder {
+    CDNS::CdnsReader* p = nullptr; bool placed = false;
+    ~Holder() { if (p) { if (placed) p->~CdnsReader(); else delete p; } }
+  } h;
   try {
-    CDNS::CdnsReader rd(is);
+    h.placed = mem != nullptr;
+    h.p = mem ? new (mem) CDNS::CdnsReader(is) : new CDNS::CdnsReader(is);
+    CDNS::CdnsReader& rd = *h.p;
     r.header_ok = true;
-    r.rendered += rd.m_file_preamble.string().size();
-    for (auto& bp : rd.m_file_preamble.m_block_parameters) r.rendered += bp.string().size();
+    { std::string t__ = rd.m_file_preamble.string(); r.rendered += t__.size(); r.mix(t__); }
+    for (auto& bp : rd.m_file_preamble.m_block_parameters) { std::string t__ = bp.string(); r.rendered += t__.size(); r.mix(t__); }
     for (;;) {
       bool eof = false;
       CDNS::CdnsBlockRead b = rd.read_block(eof);
       if (eof) break;
       r.blocks++;
-      r.rendered += b.string().size();
+      { std::string t__ = b.string(); r.rendered += t__.size(); r.mix(t__); }
       // index-level items and table entries
-      for (auto& q : b.m_query_responses) r.rendered += q.string().size();
-      for (auto& m : b.m_malformed_messages) r.rendered += m.string().size();
-      for (auto& a : b.m_address_event_counts) { CDNS::AddressEventCount t = a.first; r.rendered += t.string().size(); }
-      for (auto& e : b.m_classtype) r.rendered += e.string().size();
-      for (auto& e : b.m_qr_sig) r.rendered += e.string().size();
-      for (auto& e : b.m_qrr) r.rendered += e.string().size();
-      for (auto& e : b.m_rr) r.rendered += e.string().size();
-      for (auto& e : b.m_malformed_message_data) r.rendered += e.string().size();
+      for (auto& q : b.m_query_responses) { std::string t__ = q.string(); r.rendered += t__.size(); r.mix(t__); }
+      for (auto& m : b.m_malformed_messages) { std::string t__ = m.string(); r.rendered += t__.size(); r.mix(t__); }
+      for (auto& a : b.m_address_event_counts) { CDNS::AddressEventCount t = a.first; { std::string t__ = t.string(); r.rendered += t__.size(); r.mix(t__); } }
+      for (auto& e : b.m_classtype) { std::string t__ = e.string(); r.rendered += t__.size(); r.mix(t__); }
+      for (auto& e : b.m_qr_sig) { std::string t__ = e.string(); r.rendered += t__.size(); r.mix(t__); }
+      for (auto& e : b.m_qrr) { std::string t__ = e.string(); r.rendered += t__.size(); r.mix(t__); }
+      for (auto& e : b.m_rr) { std::string t__ = e.string(); r.rendered += t__.size(); r.mix(t__); }
+      for (auto& e : b.m_malformed_message_data) { std::string t__ = e.string(); r.rendered += t__.size(); r.mix(t__); }
       // generic accessors: each loop is ended by the first failing record (exceptions are per call)
       bool end = false;
       for (unsigned guard = 0; guard < 100000; guard++) {
-        try { CDNS::GenericQueryResponse g = b.read_generic_qr(end); if (end) break; r.records++; r.rendered += g.string().size(); }
+        try { CDNS::GenericQueryResponse g = b.read_generic_qr(end); if (end) break; r.records++; { std::string t__ = g.string(); r.rendered += t__.size(); r.mix(t__); } }
         catch (const std::exception& e) { classify(r, e); break; }
       }
       for (unsigned guard = 0; guard < 100000; guard++) {
-        try { CDNS::GenericAddressEventCount g = b.read_generic_aec(end); if (end) break; r.records++; r.rendered += g.string().size(); }
+        try { CDNS::GenericAddressEventCount g = b.read_generic_aec(end); if (end) break; r.records++; { std::string t__ = g.string(); r.rendered += t__.size(); r.mix(t__); } }
         catch (const std::exception& e) { classify(r, e); break; }
       }
       for (unsigned guard = 0; guard < 100000; guard++) {
-        try { CDNS::GenericMalformedMessage g = b.read_generic_mm(end); if (end) break; r.records++; r.rendered += g.string().size(); }
+        try { CDNS::GenericMalformedMessage g = b.read_generic_mm(end); if (end) break; r.records++; { std::string t__ = g.string(); r.rendered += t__.size(); r.mix(t__); } }
         catch (const std::exception& e) { classify(r, e); break; }
       }
       // copies of untrusted blocks must be safe as well
       CDNS::CdnsBlockRead copy(b);
-      r.rendered += copy.string().size();
+      { std::string t__ = copy.string(); r.rendered += t__.size(); r.mix(t__); }
     }
   } catch (const std::exception& e) { classify(r, e);
   } catch (...) { r.non_std = true; }
@@ -75,25 +88,31 @@ inline Result reader(const std::string& bytes) {
 }
 
 // CdnsDecoder: an operation program over a stream
-inline Result decoder(const std::string& bytes, const std::string& program) {
+inline Result decoder(const std::string& bytes, const std::string& program, void* mem = nullptr) {
   Result r;
   std::istringstream is(bytes);
+  struct Holder {
+    CDNS::CdnsDecoder* p = nullptr; bool placed = false;
+    ~Holder() { if (p) { if (placed) p->~CdnsDecoder(); else delete p; } }
+  } h;
   try {
-    CDNS::CdnsDecoder d(is);
+    h.placed = mem != nullptr;
+    h.p = mem ? new (mem) CDNS::CdnsDecoder(is) : new CDNS::CdnsDecoder(is);
+    CDNS::CdnsDecoder& d = *h.p;
     for (size_t i = 0; i < program.size(); i++) {
       bool indef = false;
       r.ops++;
       try {
         switch ((unsigned char)program[i] % 12) {
-          case 0: (void)d.peek_type(); break;
-          case 1: (void)d.read_unsigned(); break;
-          case 2: (void)d.read_negative(); break;
-          case 3: (void)d.read_integer(); break;
-          case 4: (void)d.read_bool(); break;
-          case 5: r.rendered += d.read_bytestring().size(); break;
-          case 6: r.rendered += d.read_textstring().size(); break;
-          case 7: (void)d.read_array_start(indef); break;
-          case 8: (void)d.read_map_start(indef); break;
+          case 0: r.mix((uint64_t)d.peek_type()); break;
+          case 1: r.mix(d.read_unsigned()); break;
+          case 2: r.mix((uint64_t)d.read_negative()); break;
+          case 3: r.mix((uint64_t)d.read_integer()); break;
+          case 4: r.mix((uint64_t)d.read_bool()); break;
+          case 5: { std::string t = d.read_bytestring(); r.rendered += t.size(); r.mix(t); break; }
+          case 6: { std::string t = d.read_textstring(); r.rendered += t.size(); r.mix(t); break; }
+          case 7: { uint64_t n = d.read_array_start(indef); r.mix(indef ? ~0ull : n); break; }
+          case 8: { uint64_t n = d.read_map_start(indef); r.mix(indef ? ~0ull : n); break; }
           case 9: d.read_array([&](CDNS::CdnsDecoder& dd) { dd.skip_item(); }); break;
           case 10: d.read_break(); break;
           default: d.skip_item(); break;
